@@ -162,11 +162,29 @@ class RowComb(object):
     __rmul__ = __mul__
 
 
+def user_array(name, shape=None):
+    """an array argument of a public method: values and memory layout arbitrary (it may be a strided view)"""
+    a = InArray(name, shape)
+    a.contiguous = False
+    return a
+
+
 class InArray(object):
     """a read-only input array with symbolic contents: loads become select atoms"""
+    contiguous = True          # user-supplied arrays of arbitrary memory layout are marked False by the harness (user_array)
+
     def __init__(self, name, shape=None):
         self.name = name
         self.shape = shape
+
+    def as_contiguous(self):
+        """np.ascontiguousarray / a copy: same values, C-contiguous"""
+        if self.contiguous:
+            return self
+        import copy
+        o = copy.copy(self)
+        o.contiguous = True
+        return o
 
     def sym_load(self, interp, k, node):
         if isinstance(k, slice) and (k.step is None or k.step == 1):
@@ -176,6 +194,7 @@ class InArray(object):
             hi_p = hi if isinstance(hi, P) else P.const(hi)
             sub = InArray('%s[%s:%s]' % (self.name, normal(lo_p).text(), normal(hi_p).text()), shape=(hi_p - lo_p,))
             sub.base, sub.lo, sub.hi = self, lo_p, hi_p
+            sub.contiguous = self.contiguous
             return sub
         ks = k if isinstance(k, tuple) else (k,)
         parts = []
